@@ -4,6 +4,7 @@ package main
 
 import (
 	"fmt"
+	"math/big"
 	"unsafe"
 
 	dtpb "github.com/google/fhir/go/proto/google/fhir/proto/r4/core/datatypes_go_proto"
@@ -112,6 +113,19 @@ func randDecimal(r *RNG) decimal.Decimal {
 		return decimal.New(int64(r.Intn(2001)-1000)*10+5, -1) // x.5 ties
 	case 2:
 		return decimal.New(int64(Pick(r, intBoundary)), int32(-r.Intn(3)))
+	case 3:
+		// around the powers of two where 32/64-bit conversions wrap: k*2^p + small (+ fraction)
+		p := Pick(r, []uint{31, 32, 63, 64, 64, 65, 128})
+		base := new(big.Int).Lsh(big.NewInt(int64(1+r.Intn(3))), p)
+		base.Add(base, big.NewInt(int64(r.Intn(21)-10)))
+		if r.Bool() {
+			base.Neg(base)
+		}
+		d := decimal.NewFromBigInt(base, 0)
+		if r.Bool() {
+			d = d.Add(decimal.New(int64(r.Intn(1000)), -3))
+		}
+		return d
 	}
 	nd := 1 + r.Intn(40)
 	digits := make([]byte, nd)
